@@ -1450,8 +1450,19 @@ theorem inv_bulkLoop (k : Nat) : ∀ (f : Nat) (w : World) (pl : List Par) (m : 
         · exact hp
         · exact inv_bulkLoop k f _ _ _ hp
 
+theorem syncLinks_sameBut (l : List ObjId) : ∀ (ls : List (String × String)) (w : World), SameBut w (syncLinks l w ls).w
+  | [], w => SameBut.refl w
+  | (key, val) :: rest, w => by
+    simp only [syncLinks]
+    split
+    · exact SameBut.refl w
+    · have sb := matchParametersValues_sameBut w l [(key, (w.heap.get ‹ObjId›).value)]
+      split
+      · exact sb
+      · exact sb.trans (syncLinks_sameBut l rest _)
+
 theorem inv_bulkAlias {w : World} (h : Inv w) (k : Nat) (es : List (String × String)) : Inv (bulkAlias w k es).w := by
-  simp only [bulkAlias]
+  simp only [bulkAlias, bulkAliasG]
   split
   · exact h
   · rename_i o _
@@ -1461,7 +1472,7 @@ theorem inv_bulkAlias {w : World} (h : Inv w) (k : Nat) (es : List (String × St
     · exact hl
     · split
       · exact hl
-      · exact hl.sameShape (matchParametersValues_sameBut _ _ _).sameShape
+      · exact hl.sameShape (syncLinks_sameBut _ _ _).sameShape
 
 /-! ## `setNamespace(prefix)` -/
 
